@@ -1,5 +1,6 @@
 import IslaVerif.Model.Formula
 import IslaVerif.Proofs.C09
+import IslaVerif.Proofs.Alpha
 /-
 C09 — formula negation and normal-form rewrites preserve meaning.
 ONLY property theorems and non-vacuity examples; `Sat`, `Interp`, `WF`, `NegOnAtoms` are defined in
@@ -54,5 +55,34 @@ theorem dnf_total (f : F) (deep : Bool) (hw : WF f = true) (hn : NegOnAtoms f = 
 def exF : F := .conj [.disj [.atom 1, .smt 2 true], .all 0 (.disj [.atom 3, .neg (.atom 1)]), .smt 4 false]
 example : WF exF = true ∧ NegOnAtoms exF = true := by decide
 example : ∃ g, dnf exF false = .ok g := dnf_total exF false (by decide) (by decide)
+
+/-! ### bound-variable renaming (`ensure_unique_bound_variables`)
+
+The renaming procedure itself (name generation with a shared mutable set of used names) is not
+modelled; every result of the real function is compared with its input by `Alpha.alphaEq` (equal
+nameless forms).  Proved: formulas accepted by that checker have the same meaning under EVERY
+interpretation of atoms and quantifier domains and in EVERY environment (`Alpha.SatN`,
+Proofs/Alpha.lean: tree quantifiers bind their variable and their match-expression variables,
+numeric quantifiers range over all naturals). -/
+
+theorem rename_alphaEq_sound {V : Type} [Inhabited V] (I : Alpha.Interp V) (ρ : String → V) (f g : Alpha.NF)
+    (h : Alpha.alphaEq f g = true) : Alpha.SatN I ρ f ↔ Alpha.SatN I ρ g := Alpha.alphaEq_sound' I ρ f g h
+
+/-- the nameless form is faithful: a named formula and its nameless form agree whenever the named
+environment agrees with the value stack through the binder stack -/
+theorem rename_toDB_sat {V : Type} [Inhabited V] (I : Alpha.Interp V) (ρ0 : String → V)
+    (f : Alpha.NF) (st : List String) (σ : List V) (ρ : String → V)
+    (hl : st.length = σ.length) (hρ : ∀ v, ρ v = Alpha.valOf ρ0 σ (Alpha.resolve st v)) :
+    Alpha.SatN I ρ f ↔ Alpha.SatD I ρ0 σ (Alpha.toDB st f) := Alpha.toDB_sat' I ρ0 f st σ ρ hl hρ
+
+/-- the checker accepts an unchanged formula -/
+theorem rename_alphaEq_refl (f : Alpha.NF) : Alpha.alphaEq f f = true := Alpha.alphaEq_refl' f
+
+/-! non-vacuity: a correct renaming is accepted, a capturing one is rejected
+(`forall x: forall y in x: exists x_0: p(x_0, x)` renamed with the outer x ↦ x_0) -/
+def rnIn : Alpha.NF := .all ["x"] "start" (.all ["y"] "x" (.ex ["x_0"] "start" (.atom 1 ["x_0", "x"])))
+def rnGood : Alpha.NF := .all ["x_1"] "start" (.all ["y"] "x_1" (.ex ["x_0"] "start" (.atom 1 ["x_0", "x_1"])))
+def rnCapture : Alpha.NF := .all ["x_0"] "start" (.all ["y"] "x_0" (.ex ["x_0"] "start" (.atom 1 ["x_0", "x_0"])))
+example : Alpha.alphaEq rnIn rnGood = true ∧ Alpha.alphaEq rnIn rnCapture = false := by decide +kernel
 
 end IslaVerif.C09
